@@ -130,6 +130,9 @@ impl Runner<'_, '_> {
                     headers: vec![("content-type".into(), HS_CT.into()), ("x-client-id".into(), c.to_string().into_bytes())],
                     chunks: cut_chunks(&body, cuts),
                 };
+                if crate::ctx::STALL_ALL.load(std::sync::atomic::Ordering::SeqCst) {
+                    crate::ctx::STALL_NEXT.store(true, std::sync::atomic::Ordering::SeqCst);
+                }
                 let o = (self.sut.call)(spec.clone()).await;
                 let mut nid = "-".to_string();
                 if o.panicked {
@@ -231,6 +234,9 @@ impl Runner<'_, '_> {
                     headers: vec![("content-type".into(), SNAP_CT.into()), ("x-client-id".into(), c.to_string().into_bytes())],
                     chunks: cut_chunks(&body, cuts),
                 };
+                if crate::ctx::STALL_ALL.load(std::sync::atomic::Ordering::SeqCst) {
+                    crate::ctx::STALL_NEXT.store(true, std::sync::atomic::Ordering::SeqCst);
+                }
                 let o = (self.sut.call)(spec.clone()).await;
                 if o.panicked {
                     self.dead = true;
